@@ -146,6 +146,8 @@ def generate(seed, tier='quick'):
     hdr = [['k%dw' % i, rstr(r, 6, header=True)] for i in range(r.randint(0, 4))]
     comments0 = r.choice(COMMENTS)
     style = r.choice([0, 0, 1])
+    eol = r.choice(['\n', '\n', '\n', '\r\n'])
+    final_newline = r.random() < 0.75
     weights = {op: r.choice([0, 1, 1, 2, 4]) for op in OPS}
     weights['append_rows'] = max(weights['append_rows'], 1)
     nsteps = r.randint(3, 14)
@@ -184,8 +186,8 @@ def generate(seed, tier='quick'):
                 steps.append({'op': 'write_self', 'comments': r.choice(COMMENTS)})   # own, still existing, file
             elif u < 0.7:
                 steps.append({'op': 'ext_create', 'name': 'x%d.par' % nx,
-                              'content': r.choice(['garbage', 'yanny', 'empty'])})
-                steps.append({'op': 'write_copy', 'name': 'x%d.par' % nx})
+                              'content': r.choice(['garbage', 'yanny', 'empty', 'dir'])})
+                steps.append({'op': 'write_copy', 'name': 'x%d.par' % nx, 'comments': r.choice(COMMENTS)})
                 nx += 1
             elif u < 0.85 and nf > 1:
                 steps.append({'op': 'write_copy', 'name': r.choice(names)})
@@ -203,9 +205,11 @@ def generate(seed, tier='quick'):
                 npair += 1
             steps.append(st)
             u = r.random()
-            if u < 0.7:
+            if u < 0.45:
                 steps.append({'op': 'write_self', 'comments': r.choice(COMMENTS)})   # re-create from the object
-            elif u < 0.85:
+            elif u < 0.75:
+                steps.append({'op': 'ext_restore'})     # the external actor puts the same bytes back
+            elif u < 0.88:
                 steps.append({'op': 'write_copy', 'name': rname(r, 'f', nf), 'comments': r.choice(COMMENTS)})
                 names.append(steps[-1]['name'])
                 nf += 1
@@ -223,5 +227,6 @@ def generate(seed, tier='quick'):
                           'content': r.choice(['garbage', 'yanny', 'empty'])})
             nx += 1
     return {'property': 'C03', 'seed': seed, 'clock': clock, 'tables': tables, 'hdr': hdr,
-            'start': start, 'comments': comments0, 'style': style, 'steps': steps[:16],
+            'start': start, 'comments': comments0, 'style': style, 'eol': eol,
+            'final_newline': final_newline, 'steps': steps[:16],
             'weights': weights}
